@@ -21,7 +21,7 @@ LEVEL = "exploration"
 
 
 def family(rng):
-    k = rng.choice(["witness", "split_fail", "diamond", "random", "random", "two_fail"])
+    k = rng.choice(["witness", "split_fail", "split_two_fail", "diamond", "random", "random", "two_fail", "two_fail"])
     G = True
     if k == "witness":
         nodes = [{"name": "X", "gate": G, "fail": True, "inputs": {"a": ["lit", "x"]}},
@@ -34,6 +34,13 @@ def family(rng):
         nodes = [{"name": "S", "gate": G, "failtok": rng.choice(toks), "inputs": {},
                   "split": {"form": "a", "vals": {"a": ["lit", toks]}}},
                  {"name": "D", "gate": G, "inputs": {"a": ["node", "S"]}},
+                 {"name": "I", "gate": G, "inputs": {"a": ["lit", "i"]}},
+                 {"name": "J", "gate": G, "inputs": {"a": ["node", "I"]}}]
+    elif k == "split_two_fail":
+        n = rng.randint(3, 4)
+        toks = [f"s{i}" for i in range(n)]
+        nodes = [{"name": "S", "gate": G, "failtok": ",".join(rng.sample(toks, 2)), "inputs": {},
+                  "split": {"form": "a", "vals": {"a": ["lit", toks]}}},
                  {"name": "I", "gate": G, "inputs": {"a": ["lit", "i"]}},
                  {"name": "J", "gate": G, "inputs": {"a": ["node", "I"]}}]
     elif k == "diamond":
@@ -75,8 +82,8 @@ def classify_jobs(spec):
     for nm, r in res.items():
         nd = byname[nm]
         for _, term in r.jobs:
-            tok = nd.get("failtok")
-            is_failed = bool(nd.get("fail")) or bool(tok and (f"={tok}," in term or f"={tok})" in term))
+            toks = [t for t in (nd.get("failtok") or "").split(",") if t]
+            is_failed = bool(nd.get("fail")) or any(f"={tok}," in term or f"={tok})" in term for tok in toks)
             jobs.append((nm, term))
             if is_failed:
                 failed.append((nm, term))
@@ -117,6 +124,10 @@ def decide(case, wctx):
             return rng.choice(nf)        # other jobs complete while the failing one is still running
         if pol == "fail_first" and fl:
             return rng.choice(fl)
+        if pol == "fail_batch" and len(fl) >= 2:
+            return fl                    # all held failing jobs complete in one wake-up of the loop
+        if pol == "fail_batch" and fl and nf:
+            return rng.choice(nf)        # let the other failing jobs get launched first
         return rng.choice(held)
     g = gated.run_gated(GenWF(spec=json.dumps(spec, sort_keys=True)), wctx, chooser, n_procs=8)
     ev = g["events"]
@@ -138,7 +149,8 @@ def decide(case, wctx):
             running_then_errored = True
     r = {"case": case, "sig": env.sig_of(case),
          "counters": {"events": len(ev), "body_starts": len(starts), "failed_jobs_observed": len(fails),
-                      "orders_with_running_then_errored": int(running_then_errored)},
+                      "orders_with_running_then_errored": int(running_then_errored),
+                      "batched_failure_completions": g["stats"].get("batches", 0)},
          "distinct": {"release_orders": [env.sig_of(g["order"])]},
          "nontrivial": len(failed) >= 1 and len(must) >= 2,
          "obs": {"release_order": g["order"][:12], "must_run": len(must), "must_not": len(mustnot), "may": len(may),
@@ -156,7 +168,15 @@ def decide(case, wctx):
     if g["exc"] is None:
         problems.append({"why": "workflow with failed jobs did not fail"})
     else:
-        unnamed = [(n, t) for n, t in failed if t in fails and not (f"'{n}'" in text or f"{n}(" in text or f"{n!r}" in text)]
+        byname = {nd["name"]: nd for nd in spec["nodes"]}
+
+        def named(n, t):
+            if not (f"'{n}'" in text or f"'{n}(" in text or f"tag='{n}'" in text):
+                return False
+            toks = [x for x in (byname[n].get("failtok") or "").split(",") if x and (f"={x}," in t or f"={x})" in t)]
+            # a failing element of a split node is identified by its own input value in the error text
+            return all(f"'{x}'" in text for x in toks)
+        unnamed = [(n, t) for n, t in failed if t in fails and not named(n, t)]
         if unnamed:
             problems.append({"why": "error does not name every failed job", "unnamed": unnamed[:6], "error": text[:600]})
     if not problems:
@@ -186,7 +206,7 @@ def run(ctx):
     cases = []
     for i in range(30 if quick else 500):
         spec, fam = family(rng)
-        cases.append({"spec": spec, "family": fam, "policy": rng.choice(["random", "fail_last", "fail_last", "fail_first"])})
+        cases.append({"spec": spec, "family": fam, "policy": rng.choice(["random", "fail_last", "fail_last", "fail_first", "fail_batch", "fail_batch"])})
     ctx.rule = ("gated workflows (4 hand-written families + random C03 graphs without shared-origin fan-in, <=10 jobs) with 1-2 "
                 "failing nodes/jobs x release policy (random / failing job released last / first); non-trivial = >=1 failed "
                 "job and >=2 MUST-run jobs; distinct = distinct (spec, policy)")
